@@ -1,5 +1,8 @@
 (* C08 -- property theorems only; each closed by `exact` and followed by Print Assumptions. *)
-Require Import SF.Prelude SF.PySlice SF.Dtype SF.PyDyn Gen.Gen_util Proofs.SliceFacts Proofs.AscSlice.
+Require Import SF.Prelude SF.PySlice SF.Dtype SF.PyDyn SF.Blocks SF.UpdateSpec SF.BlocksUpdate.
+Require Import Gen.Gen_util Proofs.SliceFacts Proofs.AscSlice.
+Require Import Proofs.UpdateLists Proofs.BlocksUpdateKey Proofs.BlocksDrop Proofs.BlocksMask.
+Require Import Proofs.BlocksAstype Proofs.BlocksAssign Proofs.BlocksInsert.
 
 (* The regenerated util.slice_to_ascending_slice (used by drop/mask/assign to walk blocks in
    ascending order) denotes exactly the key's positions, ascending -- for EVERY key
@@ -11,3 +14,89 @@ Theorem C08_asc_slice_correct : forall k n ps, 0 <= n ->
              increasing (if step_negative k then rev ps else ps).
 Proof. exact asc_slice_correct. Qed.
 Print Assumptions C08_asc_slice_correct.
+
+(* the slice conversion INSIDE the implementation models below is that regenerated kernel *)
+Theorem C08_model_uses_regenerated_kernel : forall k n, s_step k <> Some 0 -> 0 <= n ->
+  slice_to_ascending_slice (of_slice k) (PInt n) = of_slice (asc_slice_t k n).
+Proof. exact asc_slice_t_kernel. Qed.
+Print Assumptions C08_model_uses_regenerated_kernel.
+
+(* DROP, every block layout: the block walk of TypeBlocks._drop_blocks (targets consumed block by block,
+   part_start_last, drop_block, parts) returns exactly the columns the key does not address, in order,
+   each with its dtype, rows treated by the same row function -- whatever the partition into 1-D / 2-D blocks. *)
+Theorem C08_drop_any_layout : forall (A : Type) (t : tb A) (ck : option ckey) (rowf : list A -> list A),
+  wf_tb t -> t <> [] -> (match ck with Some k => walk_dom k = true | None => True end) ->
+  res_map flatten (M_drop_blocks t ck rowf) =
+  res_map (map (fun c => (fst c, rowf (snd c)))) (S_drop_columns (flatten t) ck).
+Proof. exact @drop_blocks_refines. Qed.
+Print Assumptions C08_drop_any_layout.
+
+(* MASK, every block layout: Boolean columns, `on` exactly at the addressed positions. *)
+Theorem C08_mask_any_layout : forall (A : Type) (on off : list A) (t : tb A) (k : ckey),
+  wf_tb t -> t <> [] -> walk_dom k = true ->
+  res_map flatten (M_mask_blocks t k on off) = S_mask_columns (flatten t) k on off.
+Proof. exact @mask_blocks_refines. Qed.
+Print Assumptions C08_mask_any_layout.
+
+(* what the drop specification says, position by position: a survivor moves left by the number of addressed
+   positions before it, and nothing else is in the result *)
+Theorem C08_drop_exact : forall (X : Type) (l : list X) (ps : list Z) (k : nat) (x : X),
+  (nth_error l k = Some x -> memz (Z.of_nat k) ps = false ->
+   nth_error (S_drop_at l ps) (k - dropped_before ps k) = Some x) /\
+  length (S_drop_at l ps) = (length l - dropped_before ps (length l))%nat.
+Proof. exact @S_drop_at_exact. Qed.
+Print Assumptions C08_drop_exact.
+
+(* what a point update (mask / astype / assign column part) says: same length, exactly the addressed positions change *)
+Theorem C08_set_exact : forall (X : Type) (g : Z -> X -> X) (l : list X) (ps : list Z) (k : nat),
+  nth_error (S_set_at g l ps) k =
+  match nth_error l k with
+  | Some x => Some (if memz (Z.of_nat k) ps then g (Z.of_nat k) x else x)
+  | None => None
+  end.
+Proof. exact @S_set_at_nth. Qed.
+Print Assumptions C08_set_exact.
+
+(* ASTYPE on a column selection, every block layout: exactly the addressed columns are converted; every other
+   column keeps dtype and cells (conv_same: converting to the dtype a column already has is the identity). *)
+Theorem C08_astype_any_layout : forall (A : Type) (dt : dtype) (conv : dtype -> list A -> list A),
+  (forall c, conv dt c = c) ->
+  forall (t : tb A) (k : ckey), wf_tb t -> t <> [] -> walk_dom k = true ->
+  forall ps, key_positions k (Z.of_nat (length (flatten t))) = Ok ps ->
+  res_map flatten (M_astype_blocks dt conv t k) = S_astype_columns (flatten t) k dt conv.
+Proof. exact @astype_blocks_refines. Qed.
+Print Assumptions C08_astype_any_layout.
+
+(* ASSIGN (by unit: element / tuple / array / aligned Series values), column part, every block layout: walking
+   the columns in position order, exactly the addressed columns are replaced and they receive the value columns
+   in order; every other column comes out identical, dtype included.  The key reaches the walk through
+   key_to_ascending_key (asc_key); is_slice = false only for an integer column key. *)
+Theorem C08_assign_unit_any_layout : forall (A : Type) (is_slice sliceable : bool) (newdt : dtype -> dtype)
+    (cells : Z -> list A -> list A) (t : tb A) (k : ckey) (ps : list Z),
+  wf_tb t -> t <> [] -> walk_dom k = true ->
+  (is_slice = true \/ exists i, k = CInt i) ->
+  key_positions k (Z.of_nat (length (flatten t))) = Ok ps ->
+  res_map flatten (M_assign_unit_blocks is_slice sliceable newdt cells t (asc_key k (Z.of_nat (length (flatten t))))) =
+  Ok (S_assign_from ps (if is_slice && sliceable then 1 else 0)
+                    (fun v c => (newdt (fst c), cells v (snd c))) 0 0 (flatten t)).
+Proof. exact @assign_unit_blocks_refines. Qed.
+Print Assumptions C08_assign_unit_any_layout.
+
+(* what the assign specification says, position by position: the column at an addressed position k is rebuilt from
+   value column number (addressed positions before k); every other column is untouched; same length *)
+Theorem C08_assign_exact : forall (A : Type) (step : Z) (new : Z -> dtype * list A -> dtype * list A)
+    (ps : list Z) (cols : list (dtype * list A)) (v i : Z) (k : nat),
+  nth_error (S_assign_from ps step new v i cols) k =
+  match nth_error cols k with
+  | Some c => Some (if memz (i + Z.of_nat k) ps then new (v + step * Z.of_nat (count_in ps i k)) c else c)
+  | None => None
+  end.
+Proof. exact @S_assign_from_nth. Qed.
+Print Assumptions C08_assign_exact.
+
+(* INSERT_BEFORE / INSERT_AFTER, every block layout of the receiver and of the inserted container. *)
+Theorem C08_insert_any_layout : forall (A : Type) (t ins : tb A) (key : Z), wf_tb t ->
+  0 <= key <= Z.of_nat (length (flatten t)) ->
+  res_map flatten (M_insert_blocks t key ins) = Ok (S_insert_at (flatten t) key (flatten ins)).
+Proof. exact @insert_blocks_refines. Qed.
+Print Assumptions C08_insert_any_layout.
